@@ -15,7 +15,9 @@ enc_message, outcome code, tree dump and encoding compared inside Coq.
 import collections
 import json
 import os
+import random
 import sys
+from concurrent.futures import ProcessPoolExecutor
 
 sys.path.insert(0, os.path.dirname(__file__))
 from common import Run, COQ, theorems_of, coq_eval_many, parse_nat_lists, shard
@@ -53,7 +55,7 @@ def first_member(ref):
     if kind == 'SEG':
         return [name]
     if kind == 'GRP':
-        k = first_member(cref)
+        k = instance(cref, 'req', 1) or first_member(cref)
         return [(name, k)] if k else []
     return []
 
@@ -202,6 +204,21 @@ def valid_line(v, lib, sname):
     return _LINES[key]
 
 
+_HDR = {}
+
+
+def header_errors(v, line):
+    """validation errors of the MSH line on its own (v2.1/v2.2 require components the canonical header
+    does not carry): not attributed to group finding"""
+    if v not in _HDR:
+        try:
+            rep = parse_segment(line, version=v, validation_level=S.TOLERANT).validate(return_errors=True)
+            _HDR[v] = sorted(str(e) for e in rep.errors)
+        except Exception as ex:  # noqa
+            _HDR[v] = ['EXC ' + repr(ex)]
+    return _HDR[v]
+
+
 def impl_tree(el):
     return [(c.name, impl_tree(c)) if isinstance(c, Group) else c.name for c in el.children]
 
@@ -247,7 +264,7 @@ def check_instance(run, v, lib, m, mode, stats):
         stats['skipped_undefined_segment'] += 1
         return None
     lines = [msh_line(m, v)]
-    seg_errs = set()
+    seg_errs = set(header_errors(v, lines[0]))
     for n in names[1:]:
         line, errs = valid_line(v, lib, n)
         lines.append(line)
@@ -545,39 +562,74 @@ def obligation_files():
     return targets, obl
 
 
+class Collector(object):
+    """stands in for Run inside a worker process: collects oracle failures"""
+
+    def __init__(self, seed, thorough):
+        self.rng = random.Random(seed)
+        self.thorough = thorough
+        self.failures = []
+
+    def fail(self, kind, what, **data):
+        self.failures.append((kind, what, data))
+
+
+def impl_version(job):
+    """implementation side for one version (runs in a worker process)"""
+    v, seed, thorough = job
+    run = Collector(seed, thorough)
+    stats = collections.Counter()
+    ncases = []
+    per_version = 25 if not thorough else 100000
+    nrand = 2 if not thorough else 3
+    nmsg = 5 if not thorough else 28
+    lib = hl7apy.load_library(v)
+    pool = [s for s in sorted(lib.SEGMENTS) if S.ok_segment(lib, s) and lib.SEGMENTS[s][1] and s != 'MSH'] + \
+           ['ZZZ', 'ZAB']
+    ms = [m for m in sorted(lib.MESSAGES) if addressable(m, lib.MESSAGES[m])]
+    stats['structures_total'] += len(lib.MESSAGES)
+    run.rng.shuffle(ms)
+    structures = 0
+    for m in ms[:per_version]:
+        structures += 1
+        for mode in MODES:
+            c = check_instance(run, v, lib, m, mode, stats)
+            if c is not None:
+                ncases.append(c)
+        if 'ANYHL7SEGMENT' not in places(lib.MESSAGES[m]):
+            for _ in range(nrand):
+                c = random_case(run, v, lib, m, pool, stats)
+                if c is not None:
+                    ncases.append(c)
+    mcases = message_cases(run, v, lib, nmsg)
+    return {'structures': structures, 'stats': dict(stats), 'ncases': ncases, 'mcases': mcases,
+            'failures': run.failures, 'bad_lines': sorted('%s/%s' % k for k, (l, e) in _LINES.items() if e)}
+
+
 def main(argv=None):
     run = Run('C08', argv)
     if run.replay:
         return replay(run)
     targets, obl = obligation_files()
     ok = run.build(targets, gen=('params', 'tables'), obligation_files=obl)
+    run.log('obligations built: %s' % ok)
     if ok:
         run.print_assumptions('Properties.C08', [n for n, _ in theorems_of('Properties/C08.v')])
     stats = collections.Counter()
-    ncases, mcases = [], []
-    per_version = 25 if not run.thorough else 100000
-    nrand = 2 if not run.thorough else 3
-    nmsg = 5 if not run.thorough else 28
+    ncases, mcases, bad_lines = [], [], []
     structures = 0
-    for v in VERSIONS:
-        lib = hl7apy.load_library(v)
-        pool = [s for s in sorted(lib.SEGMENTS) if S.ok_segment(lib, s) and lib.SEGMENTS[s][1] and s != 'MSH'] + \
-               ['ZZZ', 'ZAB']
-        ms = [m for m in sorted(lib.MESSAGES) if addressable(m, lib.MESSAGES[m])]
-        stats['structures_total'] += len(lib.MESSAGES)
-        run.rng.shuffle(ms)
-        for m in ms[:per_version]:
-            structures += 1
-            for mode in MODES:
-                c = check_instance(run, v, lib, m, mode, stats)
-                if c is not None:
-                    ncases.append(c)
-            if 'ANYHL7SEGMENT' not in places(lib.MESSAGES[m]):
-                for _ in range(nrand):
-                    c = random_case(run, v, lib, m, pool, stats)
-                    if c is not None:
-                        ncases.append(c)
-        mcases.extend(message_cases(run, v, lib, nmsg))
+    nrand = 2 if not run.thorough else 3
+    per_version = 25 if not run.thorough else 100000
+    jobs = [(v, run.seed * 100 + i, run.thorough) for i, v in enumerate(VERSIONS)]
+    with ProcessPoolExecutor(max_workers=min(12, int(os.environ.get('VERIF_JOBS', '16')))) as ex:
+        for res in ex.map(impl_version, jobs):
+            structures += res['structures']
+            stats.update(res['stats'])
+            ncases.extend(res['ncases'])
+            mcases.extend(res['mcases'])
+            bad_lines.extend(res['bad_lines'])
+            for kind, what, data in res['failures']:
+                run.fail(kind, what, **data)
     run.log('implementation side: %d structures, %d instances, %d random sequences, %d message cases; '
             '%d oracle failures' % (structures, stats['instances'], stats['random_sequences'], len(mcases),
                                     len(run.failures)))
@@ -585,7 +637,6 @@ def main(argv=None):
     run.log('names-level model: %d cases evaluated, %d disagreements' % (ev_n, len(run.disagreements)))
     ev_m = run_message_model(run, mcases)
     run.log('message-level model: %d cases evaluated, %d disagreements' % (ev_m, len(run.disagreements)))
-    bad_lines = sorted('%s/%s' % k for k, (l, e) in _LINES.items() if e)
     nontrivial = len({(c['v'], c['m'], c['mode'], c['dump']) for c in ncases if '(' in c['dump']})
     samples = [{'version': c['v'], 'structure': c['m'], 'mode': c['mode'], 'names': c['names'][:30],
                 'forest': c['dump'][:300]} for c in ncases[:: max(1, len(ncases) // 6)][:6]]
